@@ -12,7 +12,7 @@ import ast
 
 from ..model import self_attr, unparse, walk_body_shallow
 from .c09 import exc_table
-from .util import call_name, call_recv, calls_in, kwarg, need, node_assign_value, norm, registrations, where
+from .util import aliases_of, chains_in, call_name, call_recv, calls_in, kwarg, need, node_assign_value, norm, registrations, where
 
 TECHNIQUE = "error-funnel completeness over Deferred chains with per-failure-class path pruning; arm exhaustiveness"
 EXPLANATION = (
@@ -81,7 +81,7 @@ def classify(ctx, h, case_cls, anc, alias, sink_pred):
                         dead.add((n.id, t))
     # the gate `if not self._rejoin_wait_dc:` counts as a sink: its other outcome means a rejoin timer is pending
     sinks = {n.id for n in cf.nodes if any(sink_pred(c) for c in n.calls()) or (
-        n.kind == "test" and norm(n.stmt.test) in ("not self._rejoin_wait_dc", "self._rejoin_wait_dc is None"))}
+        n.kind == "test" and chains_in(n.stmt.test) == {"self", "self._rejoin_wait_dc"})}
     # reach with pruned edges
     seen, stack = set(), [cf.entry.id]
     exits = []
@@ -148,19 +148,21 @@ def run(ctx):
             h = prog.resolve_callable(f, last["eb"])
             if h is None:
                 continue
-            returned = any(isinstance(x, ast.Return) and x.value is not None and norm(x.value) in (root,) for x in
+            returned = any(isinstance(x, ast.Return) and x.value is not None and norm(x.value) in aliases_of(f, root) for x in
                            walk_body_shallow(f.body))
-            terminals.append((f, h, returned, root))
+            # the handler is named by its role (registrar + chain), not by the name of the closure
+            al_ = sorted(a for a in aliases_of(f, root) if a.startswith("self."))
+            terminals.append((f, h, returned, root, "%s@errback[%s]" % (f.qname, al_[0] if al_ else root)))
     need(len(terminals) >= 5, "expected at least five failure-handled chains in the group code, found %d" % len(terminals))
     seen = set()
-    for f, h, returned, root in sorted(terminals, key=lambda t: (t[0].qname, t[1].qname)):
+    for f, h, returned, root, role in sorted(terminals, key=lambda t: (t[0].qname, t[1].qname)):
         if (h.qname, returned) in seen:
             continue
         seen.add((h.qname, returned))
         for cname, ccls in sorted(CASES.items()):
             kind, exits = classify(ctx, h, ccls, anc, alias, sink_pred)
             ok = kind == "sink" or (kind == "propagate" and returned)
-            r.check(ok, "%s#on-failure[%s]" % (h.qname, cname),
+            r.check(ok, "%s#on-failure[%s]" % (role, cname),
                     "terminal failure handler (chain on `%s` in %s) %ss a %s failure without rescheduling the join, "
                     "stopping with the error, or firing the start Deferred" % (root, f.name, kind, ccls),
                     where(h, exits[0].stmt if exits and exits[0].stmt is not None else h.node),
@@ -187,8 +189,12 @@ def run(ctx):
     p = rae.first_param()
     sched = [n for n in cf.nodes if any(call_name(c) == "callLater" for c in n.calls())]
     need(len(sched) == 1, "rejoin scheduling site not found once")
-    gate = [t for t, lab in cf.control_deps(sched[0].id)]
-    gate_ok = all(norm(t.stmt.test) in ("not self._rejoin_wait_dc", "self._rejoin_wait_dc is None") for t in gate)
+    from ..cfg import cond_atoms, known_falsy as _kf
+    gate_l = cf.control_deps(sched[0].id)
+    gate = [t for t, lab in gate_l]
+    # the only thing the timer may depend on is `no timer pending`, in whichever form and polarity the test is written
+    gate_ok = bool(gate_l) and all(t.kind == "test" and lab and lab[0] == "cond" and _kf(cond_atoms(lab[1], lab[2]), "self._rejoin_wait_dc")
+                                   and chains_in(t.stmt.test) <= {"self", "self._rejoin_wait_dc"} for t, lab in gate_l)
     r.check(gate_ok, "%s#timer-gate" % rae.qname, "rejoin timer is armed under conditions other than `no timer pending`: %s"
             % [norm(t.stmt.test) for t in gate], where(rae, sched[0].stmt))
     sched_block = {t.id for t in gate} | {sched[0].id}
@@ -250,7 +256,6 @@ def run(ctx):
             "nothing: the member is idle for ever")
     regs_j = registrations(jouter, prog)
     al = None
-    from .util import aliases_of
     al = aliases_of(jouter, "self._rejoin_d")
     clr = []
     for g in regs_j:
@@ -264,7 +269,9 @@ def run(ctx):
 
     # ---- R3 lookup retries
     r = ctx.rule("R3", "coordinator lookup: every Kafka-error arm and the no-coordinator arm schedule join_and_sync", 2, "B")
-    ok_h = gcb.nested.get("_get_coordinator_success")
+    # the success handler of the lookup: the callback of the addCallbacks pair registered on the lookup's Deferred
+    pair = [g for g in registrations(gcb, prog) if g["kind"] == "cbs" and g["cb"] is not None and g["eb"] is not None]
+    ok_h = prog.resolve_callable(gcb, pair[0]["cb"]) if len(pair) == 1 else None
     need(ok_h is not None, "lookup success handler missing")
     cs = ctx.cfg(ok_h)
     fs = ctx.facts(ok_h)
@@ -294,11 +301,36 @@ def run(ctx):
 
     # ---- R5 exits of the join routine
     r = ctx.rule("R5", "every early exit of the join routine is taken on a falsy step result or stopping", 4, "B+C")
+    # results of protocol steps whose failure has already been funnelled (their chain ends in a terminal handler that
+    # sinks and returns None): a falsy result means "a rejoin is scheduled"
+    funnelled = {f.name for f, h, returned, root, role in terminals if returned}
+    step_results = set()
+    for x in walk_body_shallow(jas.body):
+        if isinstance(x, ast.Assign) and isinstance(x.value, ast.Yield) and isinstance(x.value.value, ast.Call) and len(x.targets) == 1 and \
+                isinstance(x.targets[0], ast.Name) and call_recv(x.value.value) == "self" and call_name(x.value.value) in funnelled:
+            step_results.add(x.targets[0].id)
+
+    def acceptable(test, pol):
+        if isinstance(test, ast.UnaryOp) and isinstance(test.op, ast.Not):
+            return acceptable(test.operand, not pol)
+        if isinstance(test, ast.BoolOp):
+            if (isinstance(test.op, ast.Or) and pol) or (isinstance(test.op, ast.And) and not pol):
+                return all(acceptable(v, pol) for v in test.values)
+            return any(acceptable(v, pol) for v in test.values)  # conjunction taken: one acceptable conjunct suffices
+        if norm(test) == "self._stopping":
+            return pol
+        if isinstance(test, ast.Name) and test.id in step_results:
+            return not pol
+        if isinstance(test, ast.Compare) and len(test.ops) == 1 and isinstance(test.left, ast.Name) and test.left.id in step_results and \
+                isinstance(test.comparators[0], ast.Constant) and test.comparators[0].value is None:
+            return pol if isinstance(test.ops[0], (ast.Is, ast.Eq)) else (not pol)
+        return False
+
     for n in cj.nodes:
         if n.kind == "stmt" and isinstance(n.stmt, ast.Return):
             deps = cj.control_deps(n.id)
             tests = [norm(t.stmt.test) for t, lab in deps if t.kind == "test"]
-            ok = any("self._stopping" in t for t in tests)
+            ok = any(t.kind == "test" and lab and lab[0] == "cond" and acceptable(lab[1], lab[2]) for t, lab in deps)
             r.check(ok, "%s#early-exit[%s]" % (jas.qname, ";".join(tests)[:70]),
                     "join routine returns early under a condition that is neither a failed step (already funnelled) nor stopping",
                     where(jas, n.stmt), "member idle although started")
